@@ -4,6 +4,7 @@ for the application.
 """
 
 import argparse
+import filecmp
 import copy
 import logging
 import os
@@ -567,9 +568,14 @@ class FileScanHelper:
                 )
 
             if working_file_holder:
-                self.__replace_with_working_file(
-                    working_file_holder[0][0], next_file, working_file_holder[0][1]
-                )
+                if filecmp.cmp(working_file_holder[0][0], next_file, shallow=False):
+                    # The fixes that were applied produced the same content as the
+                    # original: nothing was fixed, so nothing is replaced or reported.
+                    did_anything_get_fixed = False
+                else:
+                    self.__replace_with_working_file(
+                        working_file_holder[0][0], next_file, working_file_holder[0][1]
+                    )
         finally:
             if working_file_holder and os.path.exists(working_file_holder[0][0]):
                 os.remove(working_file_holder[0][0])
